@@ -10,7 +10,8 @@ EXTENDS QCircuit, Json, IOUtils, SequencesExt
 CONSTANTS MaxN,        \* registers of 1 .. MaxN qubits for single-gate circuits
           PairN,       \* registers on which all two-gate circuits over PairGates1/2 are taken
           TripleN,     \* registers for three-gate circuits over the small gate set
-          InterN       \* registers on which two two-qubit gates act on disjoint qubit pairs (same layer)
+          InterN,      \* registers on which two two-qubit gates act on disjoint qubit pairs (same layer)
+          WideN        \* larger registers: one two-qubit gate on every ordered pair of qubits
 
 VARIABLE row
 
@@ -38,7 +39,8 @@ Layered == UNION {UNION {{[n |-> n, circ |-> <<g1, g2>>] : g1 \in TwoQSmall(pp[1
 RowOf(c) == [n |-> c.n, circ |-> c.circ,
              cols |-> [k \in 1 .. Pow2(c.n) |-> LET v == Column(k - 1, c.n, c.circ) IN [b \in 1 .. Pow2(c.n) |-> v[b - 1]]]]
 
-AllCircuits == Circuits \cup Layered
+Wide == UNION {{[n |-> n, circ |-> <<g>>] : g \in UNION {{G(nm, 0, <<p[1], p[2]>>) : nm \in {"cx", "iswap"}} : p \in Pairs(n)}} : n \in WideN}
+AllCircuits == Circuits \cup Layered \cup Wide
 Init == row \in {RowOf(c) : c \in AllCircuits}
 Next == UNCHANGED row
 Spec == Init /\ [][Next]_row
